@@ -139,5 +139,9 @@ def run(chk, prog):
         chk.functions.add(key_[0])
     # ---- R5: the source-map table is rebuilt whenever the displacement field changes (a stale table moves the grid by old offsets) ----
     K.offset_table_sync(chk, prog, "R5")
+    # ---- R6: the energy distribution stays the unit Gaussian: damping and diffusion are discretised with matching coefficients
+    # (stencil moment conditions and gate agreement decided under C04 R1/R2; re-evaluated here)
+    from .common import reeval
+    reeval(chk, prog, "C04", lambda i: i["rule"] in ("R1", "R2"), "R6", "R6-fokker-planck-moments", 10)
     chk.notes.append("C05: step order and grid chaining from the constructor bindings, freshness of the wake offsets at the kick, copy-without-arithmetic. "
                      "NOT decided: that the stationary profile satisfies the Haissinski relation.")
